@@ -293,6 +293,15 @@ def run_C13(res):
             a, d = f"movetime {rnd.choice([0, 2, 8])}", False
         reqs.append(f"root {p} {hist_str(h)} {tt if rnd.random() < 0.6 else '1'} {a}")
         det.append(d)
+    # node-limit sweep: the budget expires at every point of the tree in turn (inside the move loop, a null-move subtree, quiescence,
+    # between iterations) — the abort paths are where a search forgets to restore what it borrowed
+    # middlegame roots (null-move pruning is switched off in endgames)
+    sweep_roots = [r for r in roots if bin(Pos(r[0]).c0 | Pos(r[0]).c1).count("1") >= 14][: (8 if res.tier == "quick" else 60)]
+    for p, h in sweep_roots:
+        for n in list(range(1, 90)) + list(range(90, 800, 9 if res.tier == "quick" else 3)):
+            reqs.append(f"root {p} {hist_str(h)} 1 nodes {n}")
+            det.append(True)
+    res.count("node_limit_sweep_requests", sum(1 for r in reqs if " 1 nodes " in r))
     # the same request twice IN A ROW IN THE SAME PROCESS (hidden process-wide state would show), pairs kept together
     both = run_hx_par([r for r in reqs for _ in (0, 1)], contiguous=True)
     a1, a2 = both[0::2], both[1::2]
